@@ -5,6 +5,7 @@ real library (ASan/UBSan), dump them through public fields/accessors
 (harness/hwv_dump.h), run the extracted *verified* checker wf_check on every
 dump, and hwloc_topology_check() in a child process."""
 import os
+import shutil
 import re
 
 from hv import common as C
@@ -263,6 +264,27 @@ def make_cases(run, scratch):
             d = scratch.unpack(tb)
             cases.append(("linux:%s|%s" % (os.path.basename(tb), ";".join(cfg)),
                           ["env HWLOC_COMPONENTS linux,stop", "env HWLOC_THISSYSTEM 1", "env HWLOC_CPUID_PATH"] + cfg + ["src fsroot " + d], "restrict-to-binding"))
+    # CPU-less NUMA nodes behind a memory-side cache (/repo 6bc5bae, memory-parent search of Topo/MemAttach.v): copies of the
+    # memorysidecaches snapshot in which one or two nodes that have a memory_side_cache directory lose their cpumap bits
+    for tb in S.snapshots("linux"):
+        if "memorysidecaches" not in os.path.basename(tb):
+            continue
+        src = scratch.unpack(tb)
+        nodes = sorted(n for n in os.listdir(os.path.join(src, "sys/devices/system/node"))
+                       if re.fullmatch(r"node\d+", n) and os.path.isdir(os.path.join(src, "sys/devices/system/node", n, "memory_side_cache")))
+        variants = [[n] for n in nodes[:4]] + ([nodes[:2]] if len(nodes) >= 2 else [])
+        for vi, vs in enumerate(variants if not quick else variants[:3]):
+            dst = os.path.join(scratch.dir, "mscache-cpuless-%d" % vi)
+            if not os.path.isdir(dst):
+                shutil.copytree(src, dst, symlinks=True)
+                for n in vs:
+                    with open(os.path.join(dst, "sys/devices/system/node", n, "cpumap"), "w") as f:
+                        f.write("0\n")
+            # HWLOC_USE_NUMA_DISTANCES=1: distances kept but not used to give the CPU-less nodes a locality (they stay CPU-less)
+            for cfg in (["env HWLOC_USE_NUMA_DISTANCES 1", "filter 15 0", "flags 0"], ["env HWLOC_USE_NUMA_DISTANCES 0", "filter 15 0", "filter 13 1", "flags 0"],
+                        ["env HWLOC_USE_NUMA_DISTANCES", "filter 15 0", "flags 0"], ["env HWLOC_USE_NUMA_DISTANCES 1", "flags 0"]):
+                cases.append(("linux:0mscache-cpuless-%s|%s" % ("+".join(vs), ";".join(cfg)),
+                              ["env HWLOC_COMPONENTS linux,stop", "env HWLOC_THISSYSTEM 0", "env HWLOC_CPUID_PATH"] + cfg + ["src fsroot " + dst], "linux-mutated"))
     # I/O type filters on the snapshots that have a PCI bus: every (Bridge, PCIDevice) pair of {ALL, NONE, IMPORTANT}
     # with OSDevice/Misc drawn (all 27 triples in the thorough tier).  Seeded change C18b: the Linux PCI discovery
     # tested the PCIDevice filter where it should test the Bridge filter.
@@ -322,7 +344,7 @@ def trace_inserts(name, kind):
     """Insertion tracing prints the whole raw tree around every insertion (quadratic): small inputs only."""
     if kind in ("synthetic", "synthetic2", "corpus", "synthetic-deep") or (kind == "memory-filters" and name.startswith("synthetic:")):
         return synthetic_pus(name) <= 128
-    if kind in ("linux", "x86", "x86-type-none", "linux-type-none", "linux-io-filters", "linux-default", "x86-default", "memory-filters"):
+    if kind in ("linux", "x86", "x86-type-none", "linux-type-none", "linux-io-filters", "linux-default", "x86-default", "memory-filters", "linux-mutated"):
         m = re.match(r"\w+:(\d+)", name)
         if not m:          # bundled Linux snapshots without a PU count in their name (fake*, offline-*, memorysidecaches...) are small;
             return name.startswith("linux:")      # x86 dumps are named after the processor: not traced
@@ -338,6 +360,9 @@ def script_of(indexed):
         out.append("phases 2" if trace_inserts(name, kind) else "phases 1")
         if not any(l.startswith("bindself ") for l in lines):
             out.append("bindself all")
+        for var in ("HWLOC_USE_NUMA_DISTANCES",):      # several cases share one process: no leftovers from the previous one
+            if not any(l.startswith("env " + var) for l in lines):
+                out.append("env " + var)
         out += lines
         out += ["load", "dump", "check", "destroy"]
     return "\n".join(out) + "\n"
